@@ -80,21 +80,35 @@ def check_case(col, tmp, records, width, supplied_index, final_newline=True):
         # all intervals
         ivs = [(h.split()[0], a, b) for h, s in records for a in range(len(s)) for b in range(a + 1, len(s) + 1)]
         expect = [dict((hh.split()[0], ss) for hh, ss in records)[n][a:b] for n, a, b in ivs]
-        for path in ("plain", "stringenc"):
+        for path in ("plain", "stringenc", "stringenc-reordered-labels", "stringenc-label-subset"):
+            use_ivs, use_expect = ivs, expect
             if path == "plain":
                 intervals = Interval.from_entry_tuples(ivs)
             else:
+                # chromosome column encoded with a StringEncoding whose label list is in file order / in another order /
+                # a subset of the contigs (what Genome.from_file produces with sort_names or with ignored contigs)
                 names = [h.split()[0] for h, _ in records]
+                if path == "stringenc-reordered-labels":
+                    names = names[::-1]
+                    if len(names) < 2:
+                        continue
+                if path == "stringenc-label-subset":
+                    if len(names) < 2:
+                        continue
+                    names = names[1:]
+                    keep = [k for k, (n, _, _) in enumerate(ivs) if n in names]
+                    use_ivs, use_expect = [ivs[k] for k in keep], [expect[k] for k in keep]
+                    if not use_ivs:
+                        continue
                 enc = bnp.encodings.string_encodings.StringEncoding(names)
-                intervals = Interval(bnp.as_encoded_array([n for n, _, _ in ivs], enc) if False else
-                                     bnp.encoded_array.EncodedArray(np.array([names.index(n) for n, _, _ in ivs]), enc),
-                                     np.array([a for _, a, _ in ivs]), np.array([b for _, _, b in ivs]))
-            col.case({"k": "intervals", "path": path, "n": len(ivs), **case}, contract="get_interval_sequences")
+                intervals = Interval(bnp.encoded_array.EncodedArray(np.array([names.index(n) for n, _, _ in use_ivs]), enc),
+                                     np.array([a for _, a, _ in use_ivs]), np.array([b for _, _, b in use_ivs]))
+            col.case({"k": "intervals", "path": path, "n": len(use_ivs), **case}, contract="get_interval_sequences")
             at_end = (not final_newline)
             g = col.guarded(lambda: to_py(f.get_interval_sequences(intervals)),
                             "get_interval_sequences:%s:%s%s" % (path, tag, ":no-final-newline" if at_end else ""), case)
             if g is not None:
-                bad = [(iv, x, e) for iv, x, e in zip(ivs, g, expect) if x != e]
+                bad = [(iv, x, e) for iv, x, e in zip(use_ivs, g, use_expect) if x != e]
                 col.check(not bad, "get_interval_sequences:wrong-substring:%s:%s" % (path, tag), case, "first mismatches %r" % (bad[:3],))
     finally:
         f._f_obj.close()
